@@ -22,13 +22,15 @@
    The oracle is evaluated by TLC on the rings logged by harness/area_replay.cpp (AreaGridTrace.tla).
 
    I-layer ("case builder", what is enumerated): a state machine that
-     start    chooses the number of rings (<= MaxRings),
+     Start    chooses the number of rings (<= MaxRings),
      PickKind / PickShape   draws rings from the catalogue of simple grid polygons defined below
-              (rectangles, right triangles, L and T shapes, diamonds; each also with all lattice points
-              of its boundary as vertices), in a chosen relation to an earlier ring (anywhere, bounding
-              box inside / around / apart-or-touching, identical copy),
-     PickMut / ApplyMut     optionally damages the segment bag (drop a segment = open ring, extra free
-              segment, duplicated segment, duplicated ring, spike),
+              (rectangles, right triangles, L and T shapes, diamonds, kites; rect/tri/L/dia also with all lattice
+              points of their boundary as vertices), each in a chosen relation to an earlier ring (anywhere,
+              bounding box within / inside / around / apart, sharing a vertex from outside or inside, snugly
+              nested chain, identical copy),
+     PickMut / ApplyMut / Expect   optionally damages the segment bag (drop a segment = open ring, extra free
+              segment, duplicated segment, duplicated ring, three copies of a segment, spike walked twice) and
+              computes the expected verdict of the bag: Expected(BagSegments(bag)),
      Style, StartWay / Extend / Stutter / Finish   re-draws the SAME segment bag as ways: every walk over
               the bag is possible, so member order, way direction and the cutting of rings into ways
               (including ways that run through touching points from one ring into the next) are all
@@ -36,12 +38,17 @@
      Roles    assigns member roles (outer / inner / empty / unknown, patterns over the member index),
      Redraw   starts the next drawing of the same bag (cases of one behaviour form a group whose results
               must be identical).
+   With Tiles = TRUE only bags that can be repeated along x (TileOK) are exported, together with the number of
+   touching points of chains of n copies (up to 100 touching points).
    TLC checks (MC*.cfg, exhaustively for small constants): the drawing conserves the segment bag
-   (SegBagConserved), ways are connected paths over grid points (WaysWellFormed), and the A-layer is
-   consistent: the even-odd fill does not depend on the ray direction when all degrees are even
-   (RayIndependent), it is the XOR of the fills of the rings (FillIsXor), cancelling pairs of segments
-   does not change it (CancelSound), the obviously right answer for vertex-disjoint rings is accepted by
-   Judge and spoiled answers are rejected by it (JudgeAcceptsReference, JudgeRejectsSpoiled). *)
+   (SegBagConserved), ways are connected paths over grid points (WaysWellFormed), the exported verdict is the
+   verdict of the ways as drawn (VerdictIsOfTheWays), and the A-layer is consistent: the even-odd fill does not
+   depend on the ray direction when all degrees are even (RayIndependent), it is the XOR of the fills of the rings
+   (FillIsXor), cancelling pairs of segments does not change it (CancelSound), every catalogue polygon is a valid
+   arrangement (CatalogueValid), the obviously right answer for vertex-disjoint rings (up to hole-in-island
+   nesting) is accepted by Judge and spoiled answers are rejected by it (JudgeAcceptsReference,
+   JudgeRejectsSpoiled), and a chain of copies of a motif is valid, has the computed number of touching points and
+   the motif's fill in every copy (TileTheorem). *)
 EXTENDS Integers, Sequences, FiniteSets, TLC, Json
 
 CONSTANTS G,          \* grid 0..G x 0..G
